@@ -8,6 +8,7 @@ import (
 	"io"
 	"os"
 	"reflect"
+	"strings"
 	"unsafe"
 
 	"github.com/philpearl/avro"
@@ -516,8 +517,16 @@ func headerDamage(r *Run, gf *genFileT, desc map[string]any) {
 	// missing schema
 	noSchema := &Container{Codec: c.Codec, Sync: c.Sync, Blocks: c.Blocks}
 	try("missing-schema", containerWithMeta(noSchema, map[string][]byte{"avro.codec": []byte(c.Codec)}), "err", 0)
-	// unknown codec
-	try("unknown-codec", containerWithMeta(c, map[string][]byte{"avro.schema": c.SchemaJSON, "avro.codec": []byte("zstandard")}), "err", 0)
+	// unknown codec: a name no decompressor answers to, the empty name (an entry that is present
+	// is not a missing entry), and near misses of the three supported names
+	names := []string{"zstandard", ""}
+	near := []string{"Null", "NULL", "nul", "null ", " null", "null\x00", "deflate ", "Deflate", "deflat", "snapp", "snappyy", "Snappy", "bzip2", "xz", "n", "\x00"}
+	for k := 0; k < 2; k++ {
+		names = append(names, near[r.Rng.Intn(len(near))])
+	}
+	for _, nm := range names {
+		try(fmt.Sprintf("unknown-codec:%q", nm), containerWithMeta(c, map[string][]byte{"avro.schema": c.SchemaJSON, "avro.codec": []byte(nm)}), "err", 0)
+	}
 	// schema that is not JSON
 	try("schema-not-json", containerWithMeta(c, map[string][]byte{"avro.schema": []byte(`{"type":"record","fields":[`), "avro.codec": []byte(c.Codec)}), "err", 0)
 	// no codec entry: uncompressed
@@ -551,7 +560,125 @@ func containerWithMeta(c *Container, meta map[string][]byte) []byte {
 }
 
 // C08: every cut position of every generated file.
+// c08Oversize: blocks of one to eight MiB (thorough: up to 65 MiB) — sizes at which a reader may
+// switch to another way of fetching the payload — cut inside the big block, judged by the
+// property's own rule (the records of the blocks whose payload is wholly present, then an
+// error); the whole file must read back complete.  No model case: the file is too large to
+// print as a term; the model's block loop is the same at every size (C08_cut_in_block).
+type c08Row struct {
+	ID  int64  `json:"id"`
+	Pad []byte `json:"pad"`
+}
+
+func c08Oversize(r *Run) {
+	sizes := []int{1<<20 + 4321, 4<<20 + 70001, 8<<20 + 12345}
+	if r.Thorough() {
+		sizes = append(sizes, 16<<20+999, 33<<20+77, 65<<20+5)
+	}
+	schema := `{"type":"record","name":"Row","fields":[{"name":"id","type":"long"},{"name":"pad","type":"bytes"}]}`
+	rec := func(id int64, pad []byte) []byte {
+		out := specVarint(id)
+		out = append(out, specVarint(int64(len(pad)))...)
+		return append(out, pad...)
+	}
+	for si, size := range sizes {
+		for _, codec := range []string{"null", codecNames[1+(si+int(r.Seed))%2]} {
+			ct := &Container{SchemaJSON: []byte(schema), Codec: codec, Sync: randSync(r.Rng)}
+			var pads [][]byte
+			id := int64(0)
+			small := func(n int) CBlock {
+				var b CBlock
+				for k := 0; k < n; k++ {
+					pad := []byte(fmt.Sprintf("small-%d", id))
+					pads = append(pads, pad)
+					b.Payload = append(b.Payload, rec(id, pad)...)
+					b.Count++
+					id++
+				}
+				return b
+			}
+			b0 := small(2)
+			var b1 CBlock
+			for k := 0; k < 8; k++ {
+				pad := make([]byte, size/8)
+				r.Rng.Read(pad) // incompressible: the stored length is what a reader's threshold looks at
+				pads = append(pads, pad)
+				b1.Payload = append(b1.Payload, rec(id, pad)...)
+				b1.Count++
+				id++
+			}
+			b2 := small(1)
+			ct.Blocks = []CBlock{b0, b1, b2}
+			file := ct.Bytes(false)
+			perBlk := []int{2, 8, 1}
+			read := func(in []byte) (ids []int64, bad string, err error) {
+				defer func() {
+					if p := recover(); p != nil {
+						err = fmt.Errorf("PANIC: %v", p)
+					}
+				}()
+				err = avro.ReadFile(bytes.NewReader(in), c08Row{}, func(val unsafe.Pointer, rb *avro.ResourceBank) error {
+					row := (*c08Row)(val)
+					if row.ID >= 0 && row.ID < int64(len(pads)) && !bytes.Equal(row.Pad, pads[row.ID]) && bad == "" {
+						bad = fmt.Sprintf("record %d delivered with a payload that was not written", row.ID)
+					}
+					ids = append(ids, row.ID)
+					return nil
+				})
+				return
+			}
+			desc := map[string]any{"schema": schema, "codec": codec, "blocks": perBlk, "big_block_stored_bytes": len(ct.Blocks[1].Raw), "file_bytes": len(file),
+				"how": "blocks of 2, 8 and 1 records {id long, pad bytes}; the 8 pads are size/8 random bytes from the run's generator"}
+			r.Count(fmt.Sprintf("oversize/%s/%dMiB", codec, size>>20))
+			check := func(p int, want int, wantOK bool) {
+				ids, bad, err := read(file[:p])
+				d2 := withKV(desc, "cut", p)
+				okIDs := len(ids) == want
+				for k := range ids {
+					if k < want && ids[k] != int64(k) {
+						okIDs = false
+					}
+				}
+				switch {
+				case err != nil && strings.HasPrefix(err.Error(), "PANIC"):
+					r.Fail(-1, "truncation-panic", fmt.Sprintf("big block (%d stored bytes, %s) cut at %d panics: %v", len(ct.Blocks[1].Raw), codec, p, err), d2)
+				case wantOK && err != nil:
+					r.Fail(-1, "boundary-cut-rejected", fmt.Sprintf("big block (%d stored bytes, %s): cut at the boundary %d refused: %v", len(ct.Blocks[1].Raw), codec, p, err), d2)
+				case !wantOK && err == nil:
+					r.Fail(-1, "truncation-accepted", fmt.Sprintf("big block (%d stored bytes, %s) cut at %d (not a boundary) reported success with %d records", len(ct.Blocks[1].Raw), codec, p, len(ids)), d2)
+				case !okIDs || bad != "":
+					r.Fail(-1, "truncation-records", fmt.Sprintf("big block (%d stored bytes, %s) cut at %d: delivered %d records %v, expected the %d of the complete blocks %s", len(ct.Blocks[1].Raw), codec, p, len(ids), headIDs(ids), want, bad), d2)
+				}
+				r.Count("oversize/cuts")
+			}
+			check(len(file), 11, true)
+			check(ct.BlockEnds[0], 2, true)
+			check(ct.BlockEnds[1], 10, true)
+			start := ct.BlockEnds[1] - 16 - len(ct.Blocks[1].Raw)
+			raw := len(ct.Blocks[1].Raw)
+			for _, off := range []int{1, 9, raw/8 + 7, raw / 2, raw - raw/8 - 3, raw - 1, raw, raw + 7} {
+				// off <= raw-1: inside the stored payload; raw .. raw+15: payload complete, sync marker cut
+				want := 2
+				if off >= raw {
+					want = 10
+				}
+				check(start+off, want, false)
+			}
+			check(ct.BlockEnds[1]+1, 10, false)
+			check(len(file)-3, 11, false)
+		}
+	}
+}
+
+func headIDs(ids []int64) []int64 {
+	if len(ids) > 14 {
+		return ids[:14]
+	}
+	return ids
+}
+
 func runC08(r *Run) {
+	c08Oversize(r)
 	nfiles := r.N(25, 200)
 	for i := 0; i < nfiles; i++ {
 		isHuge := i%12 == 11
